@@ -5,6 +5,30 @@ import os
 VERIF = os.path.dirname(os.path.dirname(os.path.abspath(__file__)))
 
 CLAIMED = {
+    "C01": ("6/C01", "Theorems (Lean 4): the scanner model is a total function of the text whose only failure is a syntax error with a non-empty "
+            "message and a line >= 1 (scan_total, scan_deterministic); every int/decimal token it emits consists of digits (scan_int_tokens) so "
+            "the parser's numeric conversions cannot fail; the parser model (51 mutually recursive functions mirroring parser.py production by "
+            "production) is defined WITHOUT fuel by well-founded recursion on (remaining tokens, rank) - Lean's termination checker is the proof "
+            "that every loop and recursion of the parser consumes input - and returns an AST or an error with a non-empty message (parse_total). "
+            "Tied to the code by comparing AST dumps with positions / error line / end-of-input flag on program prefixes, token edits, token "
+            "and character noise and an exhaustive short-string cover, and by an oracle (outcome class, 2 s bound, determinism) on the implementation.",
+            "re.compile validity of pattern literals is an abstract predicate (validRe) supplied by the harness; nesting deeper than the host "
+            "recursion limit and lone surrogates are out of scope."),
+    "C14": ("6/C14", "Theorems (Lean 4, scanner): whitespace at a token boundary changes only the counters (ws_at_boundary); a comment returns to the "
+            "same configuration (comment_skip); for every u, v and every filler w of whitespace and comments inserted at a token boundary the "
+            "(type, value) token sequence of scan (u ++ w ++ v) equals that of scan (u ++ v) (layout_insertion; crlf_lf); hex/binary/underscored "
+            "literals scan to the int token of their value (hex_literal, bin_literal, int_underscores). Since the parser model and the evaluator "
+            "model are functions of token types/values (positions only flow into error positions), meaning is layout independent in the model; "
+            "tied to the code by re-rendering generated and test-suite programs under random layouts/spellings and comparing tokens, ASTs, "
+            "results, output and error values on the implementation and ASTs with the model front end.",
+            "Redundant parentheses and trailing semicolons are covered by the correspondence/oracle only (no theorem yet)."),
+    "C20": ("6/C20", "Theorems (Lean 4): for every input text and every token the scanner model emits, the token's line is 1 + the number of line "
+            "breaks before the token's start offset and its file name is the given one (token_line_correct, token_start); a failing scan "
+            "reports the line of the offending character / token start (error_line_correct). Node, error and stack-trace positions are copied "
+            "from tokens by the parser/evaluator models, which are compared with the implementation including positions (C01 AST dumps carry "
+            "line and column). Tied to the code by all token kinds x followers x preceding layouts and by programs with one planted fault at a "
+            "known token under random multi-line layouts, incl. faults inside called functions and modules.",
+            "Columns are mirrored but not part of the property (they are negative for tokens followed by a line break)."),
     "C06": ("6/C06", "Theorems (Lean 4, all values at any nesting depth): the code model of __eq__ (veq) is reflexive, symmetric and transitive, never "
             "relates values of different kinds, is exact rational equality between ints and decimals, and membership / map lookup / set "
             "construction (dedupKeepFirst, assocPut) cannot distinguish equal representatives; equal numbers have the same hash payload "
